@@ -194,17 +194,36 @@ package iscp
 
 // Conn-level use of the state machine (guarantee side of "Closed is terminal")
 //@ func (*Conn).send
-//@   props C10
+//@   props C10 C05
 //@   requires c.state != nil && c.state.cond != nil && c.state.RWMutex != nil && ctx != nil && f != nil
-//@   assert call CompareAndSwapNot: arg1 == connStatusClosed
-//@   ensures imp(old(c.state.current) == connStatusClosed, result == errors.ErrConnectionClosed)
+//@   assert[C10] call CompareAndSwapNot: arg1 == connStatusClosed
+//@   ensures[C10] imp(old(c.state.current) == connStatusClosed, result == errors.ErrConnectionClosed)
+// C05: a request interrupted by an outage is issued again after recovery instead of failing with a
+// connection error: send returns nil only after an attempt succeeded, waits for Connected before
+// every attempt, and gives a connection-closed failure of an attempt back to the caller only when
+// the state could not be moved to Reconnecting, i.e. the connection is Closed.
+//@   ghostvar waited bool = false
+//@   ghostvar okAttempt bool = false
+//@   ghostvar connErr bool = false
+//@   ghostvar moved bool = false
+//@   after call WaitUntilOrClosed: waited = (res0 == nil)
+//@   after call WaitUntilOrClosed: connErr = false
+//@   assert[C05] call WaitUntilOrClosed: arg2 == connStatusConnected
+//@   assert[C05] call dynamic f: waited
+//@   after call dynamic f: okAttempt = (res0 == nil)
+//@   after call dynamic f: waited = false
+//@   after call errors.Is: connErr = res0
+//@   assert[C05] call errors.Is: arg1 == errors.ErrConnectionClosed
+//@   after call CompareAndSwapNot: moved = res0
+//@   ensures[C05] imp(result == nil, okAttempt)
+//@   ensures[C05] imp(result != nil && connErr, !moved)
 //@   loop 1 invariant c.state == old(c.state) && c.state.cond != nil && c.state.RWMutex != nil
 //@   loop 1 invariant imp(old(c.state.current) == connStatusClosed, c.state.current == connStatusClosed)
 
 //@ func (*Conn).reconnect
 //@   props C10
 //@   nopanic
-//@   requires c.state != nil && c.state.cond != nil && c.state.RWMutex != nil && c.wireConn != nil && c.logger != nil && c.Config.TokenSource != nil
+//@   requires[C10] c.state != nil && c.state.cond != nil && c.state.RWMutex != nil && c.wireConn != nil && c.logger != nil && c.Config.TokenSource != nil
 //@   assert call CompareAndSwapNot: arg1 == connStatusClosed
 //@   assert call connStatus).CompareAndSwap$: arg1 == connStatusReconnecting
 //@   ensures imp(old(c.state.current) == connStatusClosed, result == errors.ErrConnectionClosed && c.wireConn == old(c.wireConn))
@@ -496,13 +515,45 @@ package iscp
 
 // resume asks for the original stream id; on success the stream is marked connected again
 //@ func (*Upstream).resume
-//@   props C02
+//@   props C02 C05
 //@   ghostvar connected bool = false
 //@   after call streamState).Swap: connected = (arg1 == streamStatusConnected)
 //@   ensures imp(result == nil, connected)
+// C05: the stream is re-attached to the connection it is given, and a resume that was refused or
+// cut is never left silently detached: the stream is closed with that very error
+//@   ghostvar closedWith error = nil
+//@   ghostvar failed bool = false
+//@   after call closeWithError: closedWith = arg2
+//@   after call retry.Do: failed = (resErr != nil)
+//@   assert[C05] call retry.Do: u.wireConn == newConn
+//@   assert[C05] call closeWithError: failed && arg2 == resErr
+//@   ensures[C05] imp(failed, result != nil && closedWith != nil)
 //@ func (*Upstream).resume$1
-//@   props C02
-//@   assert call SendUpstreamResumeRequest: arg2 != nil && arg2.StreamID == u.ID
+//@   props C02 C05
+//@   assert call SendUpstreamResumeRequest: arg2 != nil && arg2.StreamID == u.ID && arg0 == u.wireConn
+
+// C05: a downstream resumes under its original stream id and its original alias, on the
+// connection's current wire connection; a refused or cut resume closes the stream with that error
+//@ func (*Downstream).resume
+//@   props C05
+//@   ghostvar connected bool = false
+//@   ghostvar closedWith error = nil
+//@   after call streamState).Swap: connected = (arg1 == streamStatusConnected)
+//@   ghostvar failed bool = false
+//@   after call closeWithError: closedWith = arg2
+//@   after call retry.Do: failed = (resErr != nil)
+//@   assert call retry.Do: d.wireConn == parentConn.wireConn
+//@   assert call closeWithError: failed && arg2 == resErr
+//@   ensures imp(failed, closedWith != nil)
+//@   ensures imp(result == nil && !failed, connected)
+// (that a failed resume also RETURNS the error is not stated: the engine cannot exclude that the
+//  uncontracted closeWithError changes the captured variable resErr before it is returned)
+//@ func (*Downstream).resume$1
+//@   props C05
+//@   assert call SubscribeDownstreamChunk$: arg0 == d.wireConn && arg2 == d.idAlias
+//@   assert call SubscribeDownstreamChunkAckComplete: arg0 == d.wireConn && arg2 == d.idAlias
+//@   assert call subscribeDownstreamMetadata: arg2 == d.idAlias
+//@   assert call SendDownstreamResumeRequest: arg0 == d.wireConn && arg2 != nil && arg2.StreamID == d.ID && arg2.DesiredStreamIDAlias == d.idAlias
 
 // ---------------------------------------------------------------- C09: lock discipline
 //@ guarded[C09] inmemSentStorage.RWMutex: buf
@@ -532,3 +583,54 @@ package iscp
 //@ func (*Conn).OpenDownstream
 //@   assert[C03,C04] call Conn).send: aliasGenerator != nil && forall(a, uint32, imp(has(aliases, a), 1 <= a && a <= aliasGenerator.currentValue))
 //@   loop 2 invariant[C03,C04] aliases != nil && aliasGenerator != nil && aliasGenerator.currentValue <= rangeindex + 1 && forall(a, uint32, imp(has(aliases, a), 1 <= a && a <= aliasGenerator.currentValue))
+
+// ---------------------------------------------------------------- C05: recovery loops
+// The connection's run loop: when the session ends with an error it reconnects (never gives up by
+// itself), announces exactly one reconnected event per successful reconnect and runs again; it
+// ends only when the session ended without error or the reconnect reported the connection closed.
+//@ func ConnectWithConfig$2
+//@   props C05
+//@   ghostvar owed bool = false
+//@   ghostvar runErr bool = false
+//@   ghostvar reFailed bool = false
+//@   after call Conn).run: runErr = (res0 != nil)
+//@   after call Conn).reconnect: owed = (res0 == nil)
+//@   after call Conn).reconnect: reFailed = (res0 != nil)
+//@   assert call Conn).reconnect: runErr
+//@   assert call OnReconnected: owed
+//@   after call OnReconnected: owed = false
+//@   after call OnReconnected: runErr = false
+//@   ensures !runErr || reFailed
+//@   loop 1 invariant !owed && !runErr && !reFailed
+
+// every reconnect attempt goes through connectWire (which asks the token source, see above)
+//@ func (*Conn).reconnect$1
+//@   props C05
+//@   ghostvar dialed bool = false
+//@   after call connectWire: dialed = true
+//@   ensures dialed
+
+// Per-stream watchers: when a stream's run loop ends with an error on a connection that is not
+// closed, the watcher waits for Connected and resumes THIS stream on the connection's current
+// wire connection; after a successful resume it runs the stream again (as resumed).
+//@ func (*Conn).OpenUpstream$3
+//@   props C05
+//@   ghostvar waited bool = false
+//@   ghostvar resumed bool = false
+//@   after call WaitUntil: waited = (res0 == nil)
+//@   assert call WaitUntil: arg2 == connStatusConnected
+//@   assert call Upstream).resume: waited && arg0 == u && arg1 == c.wireConn
+//@   after call Upstream).resume: resumed = (res0 == nil)
+//@   after call Upstream).resume: waited = false
+//@   assert call Upstream).run: arg0 == u && arg1 == resumed
+//@   loop 1 invariant !waited && isResume == resumed
+
+//@ func (*Conn).OpenDownstream$3
+//@   props C05
+//@   ghostvar waited bool = false
+//@   after call WaitUntil: waited = (res0 == nil)
+//@   assert call WaitUntil: arg2 == connStatusConnected
+//@   assert call Downstream).resume: waited && arg0 == down && arg1 == c
+//@   after call Downstream).resume: waited = false
+//@   assert call Downstream).run: arg0 == down
+//@   loop 1 invariant !waited
